@@ -19,7 +19,7 @@ RULE = ("Exhaustive product page_title x page_footnote x page_source (27) x foot
         "source {...} x pageby_header x {plain, page_by, subline_by} x header mode {default, explicit, multi-row, "
         "none} on frames of 3/8/14/24 rows at nrow=8 (1, 2, 3 and 5+ pages; quick tier: a seeded 1/12 slice), "
         "plus Hypothesis-generated single tables and figure documents with random paper sizes, margins, "
-        "orientation. Oracle per parsed page: role sequence matches title? subline? sublineHeading? header* "
+        "orientation; a quarter of them rendered a second time after their rtf_page was replaced by another layout. Oracle per parsed page: role sequence matches title? subline? sublineHeading? header* "
         "(heading|data)* footnote? source? with presence dictated by the placement option and first/last status, "
         "header rows on page 1 and on later pages iff pageby_header; every page after the first restates "
         "\\paperw \\paperh \\margl..\\footery equal to the document start, start values within 1 twip of inches x "
@@ -36,8 +36,24 @@ DEFAULT_GEOM = {"portrait": (8.5, 11.0, [1.25, 1, 1.75, 1.25, 1.75, 1.00625]),
                 "landscape": (11.0, 8.5, [1.0, 1.0, 2, 1.25, 1.25, 1.25])}
 
 
+GEOM_KEYS = ("width", "height", "margin", "orientation", "col_width")
+
+
+@st.composite
+def _with_history(draw, base):
+    """A quarter of the documents are rendered once under another paper size / margins / orientation first, then
+    given the recipe's rtf_page and rendered again (common.run_recipe, key 'relayout')."""
+    rec = draw(base)
+    if draw(st.integers(0, 3)) == 0:
+        other = draw(gen.page_spec(CFG))
+        first = {k: v for k, v in (rec.get("page") or {}).items() if k not in GEOM_KEYS}
+        first.update({k: other[k] for k in GEOM_KEYS if k in other})
+        rec["relayout"] = first
+    return rec
+
+
 def strategy(tier):
-    return st.one_of(gen.table_recipe(CFG), gen.table_recipe(CFG), gen.figure_recipe(replace(CFG, attrs=False)))
+    return _with_history(st.one_of(gen.table_recipe(CFG), gen.table_recipe(CFG), gen.figure_recipe(replace(CFG, attrs=False))))
 
 
 def budget(tier):
@@ -170,6 +186,7 @@ def check(case) -> Result:
             res.fail("header_footer", f"{kind}/{name}/got{len(lst)}want{want_n}", "")
     nondefault = (pt != "all") or (pf != "last") or (ps != "last") or (pbh is not True)
     res.labels = [pages_label(np_), "kind=" + kind, f"pt={pt}", f"pf={pf}", f"ps={ps}",
-                  "geom=custom" if ("width" in page or "margin" in page) else "geom=default", "orient=" + orient]
+                  "geom=custom" if ("width" in page or "margin" in page) else "geom=default", "orient=" + orient,
+                  "rerendered_after_layout_change" if case.get("relayout") is not None else "fresh"]
     res.nontrivial = np_ >= 2 and nondefault
     return res
